@@ -5,7 +5,7 @@ use anyhow::{anyhow, bail, Context, Result};
 use futures::{future::join_all, stream::FuturesUnordered, SinkExt, StreamExt};
 use log::{error, info};
 use quinn::{Connecting, Connection, Endpoint, IdleTimeout, VarInt};
-use selium_protocol::error_codes::INVALID_TOPIC_NAME;
+use selium_protocol::error_codes::{INVALID_TOPIC_NAME, TOPIC_PATTERN_MISMATCH};
 use selium_protocol::{error_codes, BiStream, ErrorPayload, Frame, TopicName};
 use selium_std::errors::SeliumError;
 use std::net::SocketAddr;
@@ -183,7 +183,7 @@ async fn handle_stream(
             use selium_protocol::error_codes::CLOUD_AUTH_FAILED;
 
             match do_cloud_auth(&_connection, topic, &topics).await {
-                Ok(_) => stream.send(Frame::Ok).await?,
+                Ok(_) => (),
                 Err(e) => {
                     debug!("Cloud authentication error: {e:?}");
 
@@ -209,7 +209,6 @@ async fn handle_stream(
                 stream.send(Frame::Error(payload)).await?;
                 return Ok(());
             }
-            stream.send(Frame::Ok).await?;
         }
 
         let mut ts = topics.lock().await;
@@ -236,6 +235,24 @@ async fn handle_stream(
         }
 
         let tx = ts.get_mut(topic).unwrap();
+
+        // A topic serves one messaging pattern, fixed by its first registration. Refuse a
+        // stream that asks for the other one instead of accepting and then abandoning it.
+        let wants_pubsub = matches!(
+            frame,
+            Frame::RegisterPublisher(_) | Frame::RegisterSubscriber(_)
+        );
+        if wants_pubsub != matches!(tx, Sender::Pubsub(_)) {
+            drop(ts);
+            let payload = ErrorPayload {
+                code: TOPIC_PATTERN_MISMATCH,
+                message: "Topic is already in use with the other messaging pattern".into(),
+            };
+            stream.send(Frame::Error(payload)).await?;
+            return Ok(());
+        }
+
+        stream.send(Frame::Ok).await?;
 
         match frame {
             Frame::RegisterPublisher(_) => {
